@@ -73,14 +73,14 @@ pub fn gen_dist(p: &mut Prng, mode: DistMode, small: bool) -> Dist {
             if p.chance(1, 2) {
                 konst(p)
             } else {
-                let (lo, hi) = *p.pick(&[(0.0, 10.0), (1.0, 3.0), (0.0, 1e6), (-5.0, 5.0), (0.0, 1.0), (0.0, 4.0), (1e10, 1e12)]);
+                let (lo, hi) = *p.pick(&[(0.0, 10.0), (1.0, 3.0), (0.0, 1e6), (-5.0, 5.0), (0.0, 1.0), (0.0, 4.0), (1e10, 1e12), (-0.0, 0.0), (0.0, -0.0)]);
                 DistType::Uniform { low: lo, high: hi }
             }
         }
         DistMode::All => match p.below(16) {
             0..=4 => konst(p),
             5 => {
-                let (lo, hi) = *p.pick(&[(0.0, 10.0), (1.0, 3.0), (0.0, 1e6), (-5.0, 5.0), (0.0, 4.0), (1e10, 1e12)]);
+                let (lo, hi) = *p.pick(&[(0.0, 10.0), (1.0, 3.0), (0.0, 1e6), (-5.0, 5.0), (0.0, 4.0), (1e10, 1e12), (-0.0, 0.0), (0.0, -0.0)]);
                 DistType::Uniform { low: lo, high: hi }
             }
             6 => DistType::Normal { mean: *p.pick(&[0.0, 10.0, 1e5]), stdev: *p.pick(&[0.0, 3.0, 1e4]) },
